@@ -1424,6 +1424,12 @@ func runC04S(tier string) *vf.Run {
 	parallel(len(scens), 6, func(i int) {
 		sc := scens[i]
 		r := runC04Case(sc, fmt.Sprintf("c04s-%d", sc.Idx))
+		if r.inconclusive != "" && len(r.vios) == 0 {
+			// an undecided scenario is tried once more in a fresh world before it is counted as inconclusive
+			fmt.Fprintln(os.Stderr, "C04S-RETRY "+fmt.Sprintf("[case %d %s/%s] ", sc.Idx, sc.Kind, sc.Sub)+r.inconclusive)
+			run.Count("scenarios_retried", 1)
+			r = runC04Case(sc, fmt.Sprintf("c04s-%d-retry", sc.Idx))
+		}
 		run.Eval(1)
 		tag := fmt.Sprintf("[case %d %s/%s] ", sc.Idx, sc.Kind, sc.Sub)
 		run.Count("scenarios_"+sc.Kind, 1)
